@@ -143,7 +143,8 @@ def run_check(prop: str, tier: str, obligations, level: str, explanation: str, a
             errors.append(f"{r['name']}: {r.get('detail', '')[:300]}")
 
     # ---- replay files + output lines ----
-    os.makedirs(os.path.join(HERE, "replays", prop), exist_ok=True)
+    REPLAYS = os.environ.get("VERIF_REPLAY_DIR") or os.path.join(HERE, "replays")  # (developer override, used by seedtest.sh)
+    os.makedirs(os.path.join(REPLAYS, prop), exist_ok=True)
     lines = []
     seen_known = set()
     for k, cex in known_hits:
@@ -153,7 +154,7 @@ def run_check(prop: str, tier: str, obligations, level: str, explanation: str, a
         lines.append(f"KNOWN-FINDING: property={prop} {k['id']}: {k['summary']}")
     for cex in new_viol:
         h = hashlib.sha1(json.dumps(cex, sort_keys=True, default=str).encode()).hexdigest()[:12]
-        path = os.path.join(HERE, "replays", prop, f"{cex.get('harness', 'cex')}-{h}.json")
+        path = os.path.join(REPLAYS, prop, f"{cex.get('harness', 'cex')}-{h}.json")
         with open(path, "w") as f:
             json.dump({"property": prop, **cex}, f, indent=1, default=str)
         lines.append(f"VIOLATION property={prop} replay={path}")
@@ -204,8 +205,9 @@ def run_check(prop: str, tier: str, obligations, level: str, explanation: str, a
         "wall_s": round(time.time() - t0, 2),
         "violations": len(new_viol),
     }
-    os.makedirs(os.path.join(HERE, "evidence"), exist_ok=True)
-    with open(os.path.join(HERE, "evidence", f"{prop}.json"), "w") as f:
+    EVID = os.environ.get("VERIF_EVIDENCE_DIR") or os.path.join(HERE, "evidence")  # (developer override, used by seedtest.sh)
+    os.makedirs(EVID, exist_ok=True)
+    with open(os.path.join(EVID, f"{prop}.json"), "w") as f:
         json.dump(ev, f, indent=1, default=str)
 
     for r in results:
